@@ -602,3 +602,8 @@ V_LEXSKIP = VUnit("lex_skip", "lex_skip", ["lexer::Lexer::skip_whitespace_and_co
 ALL_V += [V_LEXSKIP]
 PROPS["C02"]._v = ALL_V
 PROPS["C09"]._v = PROPS["C09"]._v + [V_LEXSKIP]
+
+
+# C15 "indexing, range-indexing ... work on bytes" / "Unicode-safe": the string range read (V) and the scanner's byte index (K)
+PROPS["C15"]._v = PROPS["C15"]._v + [V_RANGEREAD]
+PROPS["C15"]._k = PROPS["C15"]._k + [props_lexer.C18_UNITS[1]] + props_lexer.C03_SCANNER_UNITS
